@@ -252,6 +252,11 @@ class TDS(BaseRoutine):
         # if `dae.n == 1`, `calc_h_first` depends on new `dae.gy`
         self.calc_h()
 
+        # when replaying CSV data, the first loop pass stores the first sample at its own time;
+        # `calc_h` above has advanced the row pointer, which would skip the second sample
+        if self.data_csv is not None:
+            self.k_csv = 0
+
         # allocate for internal variables
         self.x0 = np.zeros_like(system.dae.x)
         self.y0 = np.zeros_like(system.dae.y)
